@@ -127,7 +127,9 @@ def parse_kind(kind, toks):
 def _parse(eng, m, g, a):
     kind = g[0].split("::")[-1]; ts = deref(a[0])
     if kind == "Ident": return IdentV(ts.t[0][1])
-    return parse_kind(kind, ts.t)
+    try: return parse_kind(kind, ts.t)
+    except (AssertionError, IndexError, TypeError) as e:
+        raise Panic("parse_quote!: tokens do not parse as syn::%s: %s" % (kind, tok_str(ts)[:200]))
 def _parse_str(eng, m, g, a):
     kind = g[0].split("::")[-1]; s = deref(a[0]).concrete()
     try: toks = lex(s)
